@@ -253,7 +253,7 @@ def call_observer(obj, name):
         Serializable.post_text_encoder = mine
 
         def restored():
-            return type(obj).post_text_encoder is mine and Serializable.post_text_encoder is mine
+            return getattr(type(obj), 'post_text_encoder', mine) is mine and Serializable.post_text_encoder is mine
         try:
             r = obj.as_markdown()
             return project([r, 'encoder-restored' if restored() else 'ENCODER-NOT-RESTORED']), False
